@@ -94,7 +94,25 @@ func expandInterned(text string) string {
 	return text
 }
 
+// rawS: a string literal; a long string is rendered as chunks joined by ++ (one literal beyond some tens of KB overflows
+// coqc's stack when it is interpreted; vm_compute evaluates the ++)
 func rawS(s string) string {
+	const chunk = 8000
+	if len(s) > chunk {
+		var parts []string
+		for i := 0; i < len(s); i += chunk {
+			j := i + chunk
+			if j > len(s) {
+				j = len(s)
+			}
+			parts = append(parts, rawS1(s[i:j]))
+		}
+		return "(" + strings.Join(parts, " ++ ") + ")%string"
+	}
+	return rawS1(s)
+}
+
+func rawS1(s string) string {
 	plain := true
 	for i := 0; i < len(s); i++ {
 		c := s[i]
@@ -133,7 +151,23 @@ func Bt(b bool) string {
 	return "false"
 }
 
-func L(items []string) string { return "[" + strings.Join(items, "; ") + "]" }
+// L renders a list literal; a long list is rendered as chunks joined by ++ (coqc's elaboration of one list literal
+// recurses once per element and overflows its stack beyond roughly a thousand elements; vm_compute evaluates the ++)
+func L(items []string) string {
+	const chunk = 200
+	if len(items) <= chunk {
+		return "[" + strings.Join(items, "; ") + "]"
+	}
+	var parts []string
+	for i := 0; i < len(items); i += chunk {
+		j := i + chunk
+		if j > len(items) {
+			j = len(items)
+		}
+		parts = append(parts, "["+strings.Join(items[i:j], "; ")+"]")
+	}
+	return "(" + strings.Join(parts, " ++ ") + ")%list"
+}
 
 func Opt(present bool, term string) string {
 	if !present {
